@@ -33,6 +33,46 @@ type ModSet struct {
 	readFields map[int]bool    // read footprint: leaf field ids
 	readElems  map[string]bool // read footprint: element cells of a sort
 	readWhole  map[string]bool // reads through pointers of unknown origin: whole sort
+	// paramDeref: writes the scalar cell(s) *param #k points to (and nothing else through that pointer);
+	// relative to the summarised function, mapped to the actual argument at each call site
+	paramDeref map[int]map[string]bool
+	// precise (encoder only): collect, instead of a class of cells, the very argument cells a callee
+	// writes through its pointer parameters
+	precise    bool
+	cellWrites []cellWrite
+}
+
+// cellWrite: the callee stores a value of heap sort `sort` into the cell the call argument addr points to.
+type cellWrite struct {
+	addr ssa.Value
+	sort string
+}
+
+func (m *ModSet) addParamDeref(k int, sort string) {
+	if m.paramDeref == nil {
+		m.paramDeref = map[int]map[string]bool{}
+	}
+	if m.paramDeref[k] == nil {
+		m.paramDeref[k] = map[string]bool{}
+	}
+	m.paramDeref[k][sort] = true
+}
+
+// pointerParamIndex: v is (a copy of) a pointer-typed parameter of its function: its index, else -1.
+func pointerParamIndex(v ssa.Value) int {
+	par, ok := traceLocal(v).(*ssa.Parameter)
+	if !ok || par.Parent() == nil {
+		return -1
+	}
+	if _, isPtr := par.Type().Underlying().(*types.Pointer); !isPtr {
+		return -1
+	}
+	for i, q := range par.Parent().Params {
+		if q == par {
+			return i
+		}
+	}
+	return -1
 }
 
 // footprint describes what a deterministic function reads of one heap sort.
@@ -114,6 +154,9 @@ func (m *ModSet) heapArgs() []string {
 
 func (m *ModSet) size() int {
 	n := len(m.sorts) + len(m.fields) + len(m.elems) + len(m.freeVars) + len(m.callsParam)
+	for _, ss := range m.paramDeref {
+		n += len(ss)
+	}
 	for _, b := range []bool{m.all, m.maps, m.sync, m.storeMut, m.storeAdd} {
 		if b {
 			n++
@@ -279,7 +322,49 @@ func (p *Program) addStore(ms *ModSet, addr ssa.Value, t types.Type) {
 		ms.fields[globalID(a)] = true
 		return
 	}
+	if k := pointerParamIndex(addr); k >= 0 && isHeapScalar(scalar) {
+		// *param = v: exactly the cell the caller handed in
+		ms.addParamDeref(k, scalar)
+		return
+	}
 	ms.sorts[scalar] = true
+}
+
+// addCellClass: a write of a scalar of heap sort `sort` through addr, classified without its Go type.
+func (p *Program) addCellClass(ms *ModSet, addr ssa.Value, sort string) {
+	addr = stripVal(addr)
+	if localRoot(addr) != nil {
+		return
+	}
+	if fv := freeVarRoot(addr); fv != nil {
+		for i, q := range fv.Parent().FreeVars {
+			if q == fv {
+				ms.freeVars[i] = true
+			}
+		}
+	}
+	switch a := addr.(type) {
+	case *ssa.FieldAddr:
+		if st := structOf(a.X.Type()); st != nil {
+			ms.fields[fieldID(st.Field(a.Field))] = true
+			return
+		}
+	case *ssa.IndexAddr:
+		ms.elems[sort] = true
+		return
+	case *ssa.Alloc:
+		return
+	case *ssa.FreeVar:
+		return
+	case *ssa.Global:
+		ms.fields[globalID(a)] = true
+		return
+	}
+	if k := pointerParamIndex(addr); k >= 0 {
+		ms.addParamDeref(k, sort)
+		return
+	}
+	ms.sorts[sort] = true
 }
 
 var purePkgs = []string{"fmt", "errors", "strings", "strconv", "path", "path/filepath", "go.uber.org/zap", "go.uber.org/zap/zapcore",
@@ -486,6 +571,22 @@ func (p *Program) mergeCallee(ms *ModSet, fn *ssa.Function, mc *ssa.MakeClosure,
 		return // not yet computed (fixpoint will revisit)
 	}
 	ms.merge(s)
+	for _, k := range sortedInts2(s.paramDeref) {
+		var av ssa.Value
+		if k < len(args) {
+			av = args[k]
+		}
+		for _, so := range sortedKeys(s.paramDeref[k]) {
+			switch {
+			case av == nil:
+				ms.sorts[so] = true
+			case ms.precise && localRoot(av) == nil && freeVarRoot(av) == nil && pointerParamIndex(av) < 0:
+				ms.cellWrites = append(ms.cellWrites, cellWrite{addr: av, sort: so})
+			default:
+				p.addCellClass(ms, av, so)
+			}
+		}
+	}
 	for k := range s.freeVars {
 		if mc != nil && k < len(mc.Bindings) {
 			b := mc.Bindings[k]
@@ -1043,6 +1144,9 @@ func (m *ModSet) String() string {
 	for _, k := range sortedKeys(m.elems) {
 		parts = append(parts, "elems:"+k)
 	}
+	for _, k := range sortedInts2(m.paramDeref) {
+		parts = append(parts, fmt.Sprintf("*param%d:%s", k, strings.Join(sortedKeys(m.paramDeref[k]), "+")))
+	}
 	if m.maps {
 		parts = append(parts, "maps")
 	}
@@ -1122,4 +1226,13 @@ func traceLocal(v ssa.Value) ssa.Value {
 		v = only
 	}
 	return v
+}
+
+func sortedInts2(m map[int]map[string]bool) []int {
+	var ks []int
+	for k := range m {
+		ks = append(ks, k)
+	}
+	sort.Ints(ks)
+	return ks
 }
